@@ -487,6 +487,21 @@ def slice_dischargers(ctx):
                                 o = single_origin(trace_operand(body, rb[1], through_calls=set()))
                                 if o is not None and o.kind == 'binop' and o.data[0] == b and o.data[1] == i:
                                     return ('D-vetted', 'position after the consumed closing quote minus 1 (vetted string-payload bound, preconditions re-checked by SLICE)')
+                    # ... or of one in a slicing helper this value is handed to (`self.cursor.slice(start + 1, self.cursor.offset() - 1)`)
+                    for c in body.live_calls:
+                        g = ctx.prog.by_id.get(c.ruid) if c.ruid else None
+                        if g is None:
+                            continue
+                        for k, a in enumerate(c.args):
+                            ao = single_origin(trace_operand(body, a, through_calls=set()))
+                            if ao is None or ao.kind != 'binop' or ao.data[0] != b or ao.data[1] != i:
+                                continue
+                            for c2 in g.live_calls:
+                                if (c2.rdef or '') == r_slice.STR_INDEX and sm.verdicts.get((g.id, c2.bb)):
+                                    rb = r_slice.range_bounds(g, c2)
+                                    po = single_origin(trace_operand(g, rb[1], through_calls=set())) if rb and rb[1] is not None else None
+                                    if po is not None and po.kind == 'param' and po.data == k + 1 and not po.proj:
+                                        return ('D-vetted', 'position after the consumed closing quote minus 1, handed to a slicing helper as the upper bound (vetted string-payload bound, preconditions re-checked by SLICE at every place the slice ends up)')
         return None
     return [d_slice, d_bound]
 
